@@ -10,8 +10,8 @@ EXTENDS Integers, Sequences, FiniteSets
 
 Abs(x) == IF x < 0 THEN -x ELSE x
 Sgn(x) == IF x > 0 THEN 1 ELSE IF x < 0 THEN -1 ELSE 0
-Max(a, b) == IF a >= b THEN a ELSE b
-Min(a, b) == IF a <= b THEN a ELSE b
+Mx(a, b) == IF a >= b THEN a ELSE b
+Mn(a, b) == IF a <= b THEN a ELSE b
 
 RECURSIVE GcdN(_, _)
 GcdN(a, b) == IF b = 0 THEN a ELSE GcdN(b, a % b)      \* a, b >= 0
@@ -20,14 +20,11 @@ Gcd(a, b) == GcdN(Abs(a), Abs(b))
 RECURSIVE SumSeq(_)
 SumSeq(s) == IF s = <<>> THEN 0 ELSE Head(s) + SumSeq(Tail(s))
 
-RECURSIVE SumSet(_)
-SumSet(S) == IF S = {} THEN 0 ELSE LET x == CHOOSE y \in S : TRUE IN x + SumSet(S \ {x})
 
 \* Sum of f[i] for i in a finite index set I
 RECURSIVE SumOver(_, _)
 SumOver(I, f) == IF I = {} THEN 0 ELSE LET i == CHOOSE j \in I : TRUE IN f[i] + SumOver(I \ {i}, f)
 
-Q(n, d) == [n |-> n, d |-> d]          \* the rational n/d, d # 0, not normalised
 
 (* 2-D *)
 Orient2(a, b, c) == (b[1] - a[1]) * (c[2] - a[2]) - (b[2] - a[2]) * (c[1] - a[1])
